@@ -494,8 +494,8 @@ func init() {
 	register(&PropSpec{ID: "C17", Jobs: c17jobs,
 		Covers: []string{"C17.all-imports-fine", "C17.broken-import", "C17.import-cycle-or-self-import"},
 		Bounds: map[string]interface{}{
-			"quick":    "2 and 3 files in two directories (/p/a.yaml root, /p/b.yaml, /p/sub/c.yaml) plus the directory /p/sub; every file has 0..2 imports, each a symbolic member of {the files, the directory, a missing name} written relative to the importing file (self-imports, mutual imports, repeats, directory imports all arise); per file symbolic exists / parses",
-			"thorough": "4 files (adds /p/sub/d.yaml)",
+			"quick":    "2 and 3 files in two directories (/p/a.yaml root, /p/sub/c.yaml, /p/sub/d.yaml - the directory holds two files, so one file of an imported directory can import its sibling) plus the directory /p/sub; every file has 0..2 imports, each a symbolic member of {the files, the directory, a missing name} written relative to the importing file (self-imports, mutual imports, repeats, directory imports all arise); per file symbolic exists / parses",
+			"thorough": "4 files (adds /p/b.yaml)",
 		},
 		Outside:     []string{"URL imports", "what mergo does with the merged maps (mergo.Merge is a recording stub)", "the global configuration clause of the property: Config.merge = mergo on structs (reflection, not encodable) - not claimed", "more than 4 files / 2 imports per file"},
 		Assumptions: []string{"stubs: utils.FileExists, os.Stat, Loader.readFile (returns the symbolic import list or a parse error), filepath.Glob, mergo.Merge (records importer/imported), utils.IsURL=false", "path.Join / path.Dir: exact on finite-domain strings (every combination joined with the real functions)"},
